@@ -14,6 +14,18 @@ REPO = "/repo"
 def sh(cmd, **kw):
     return subprocess.run(cmd, capture_output=True, text=True, **kw)
 
+def save(resp, sid, val):
+    """merge one result into RESULTS.json under a lock (several run_seeded.py may run side by side)"""
+    import fcntl
+    with open(resp + ".lock", "w") as lk:
+        fcntl.flock(lk, fcntl.LOCK_EX)
+        cur = json.load(open(resp)) if os.path.exists(resp) else {}
+        cur[sid] = val
+        tmp = resp + ".tmp"
+        json.dump(cur, open(tmp, "w"), indent=1, sort_keys=True)
+        os.replace(tmp, resp)
+
+
 def main():
     ap = argparse.ArgumentParser()
     ap.add_argument("--tier", default="quick")
@@ -44,6 +56,7 @@ def main():
                 target = wt
             if r.returncode != 0:
                 results[sid] = {"error": "patch does not apply: " + r.stderr[-300:]}
+                save(resp, sid, results[sid])
                 continue
             out = {}
             for p in props:
@@ -53,13 +66,13 @@ def main():
                 out[p] = {"rc": c.returncode, "violation": vio[:2], "wall_s": round(time.time() - t0, 1),
                           "caught": c.returncode == 1 and bool(vio)}
             results[sid] = {"property": props, "checks": out, "caught": all(v["caught"] for v in out.values())}
-            print(sid, json.dumps(results[sid]["checks"]))
+            print(sid, json.dumps(results[sid]["checks"]), flush=True)
+            save(resp, sid, results[sid])
         finally:
             if a.inplace:
                 sh(["git", "-C", REPO, "checkout", "--", "."])
             elif wt:
                 sh(["git", "-C", REPO, "worktree", "remove", "--force", wt])
-    json.dump(results, open(resp, "w"), indent=1)
     # restore generated Lean to /repo's state
     sh([sys.executable, os.path.join(here, "translate", "regen_all.py")])
 
